@@ -1,2 +1,3 @@
 import STProofs.GradCheck
+import STProofs.GradCheckAny
 /-! # C19 — gradient self-check: loop logic -/
